@@ -229,6 +229,21 @@ func runC03(c *Ctx) {
 	}
 	R.Floor("C03.R4", "re-slices of message bytes", nView, 2)
 
+	// the partial frame steps (type byte only, length word only) are used only by the full-frame readers of pkg/buffer:
+	// a caller that reads a header by itself decides on its own how much of the body to consume
+	nPartial := 0
+	for _, fn := range c.P.ScopeFuncs() {
+		for _, ci := range core.Calls(fn) {
+			m := readerMethod(ci)
+			if m != "ReadType" && m != "ReadMsgSize" {
+				continue
+			}
+			nPartial++
+			R.Check(c.P.InPkg(fn, "buffer"), "C03.R2", fkey(fn)+":partial-frame-read:"+m, c.at(ci), "message headers are read only as part of a whole-message read (type, length, then exactly length-4 body bytes)", "call inside pkg/buffer's frame readers", fname(fn)+" reads a message header by itself ("+m+"): the body is consumed only if this caller does so, so a declared length can be ignored and the body parsed as further messages")
+		}
+	}
+	R.Count("partial_frame_read_sites", nPartial)
+
 	// ---------- R7: COPY-in starts at a message boundary
 	c.c03CopyStartsAtBoundary()
 
